@@ -415,7 +415,7 @@ impl BufferRef {
         if cap == 0 {
             return;
         }
-        self.cap = (cap as u32).min(self.full_cap);
+        self.cap = cap.min(self.full_cap as usize) as u32;
         self.len = self.len.min(self.cap);
     }
 }
